@@ -39,10 +39,13 @@ type FlowOpts struct {
 	Inbound      int // application messages the broker sends
 	InQ          [3]int
 	StopAt       int // process stop at this many completed storage operations (0: none)
+	NoTick       bool // simulated time passes only when nothing else can happen
 	ReqMix       [rkKinds]int
 	QuitMix      [4]int
 	FailFilter   int // permille of subscribe filters the broker fails
 	Disk         DiskOpts
+	LongTopic    int    // permille of inbound messages with a long topic
+	InSizeMix    [4]int // small / around the read buffer / several buffers / empty
 }
 
 type Pub struct {
@@ -109,12 +112,21 @@ type Flow struct {
 	ReaderClosed bool
 	FatalSetup   error
 
+	Recvs        []*Recv
+	StrictInbound bool // no connection loss in this run: every message sent must be returned
+	Backoffs     []BackoffRec
+	RSInvokes    int
+	RSReturns    int
+	LastRSReturn int
+	InSent       int // application messages the broker has been given so far
+	Owned        map[uint16]int // inbound exactly-once identifiers whose marker is stored -> step of the Save
 	Mon    []Monitor
 	Refuse func(n int) byte
 }
 
 // Monitor is an oracle plugged into the flow.
 type Monitor interface {
+	Recv(f *Flow, r *Recv)
 	Wire(f *Flow, c *Conn, p *WirePkt)
 	Step(f *Flow)
 	Online(f *Flow, c *Conn)
@@ -123,6 +135,7 @@ type Monitor interface {
 
 type NopMonitor struct{}
 
+func (NopMonitor) Recv(*Flow, *Recv)           {}
 func (NopMonitor) Wire(*Flow, *Conn, *WirePkt) {}
 func (NopMonitor) Step(*Flow)                  {}
 func (NopMonitor) Online(*Flow, *Conn)         {}
@@ -164,6 +177,17 @@ func StoredPacket(v []byte) (packet []byte, seq uint64, sum uint32, ok bool) {
 }
 
 func (f *Flow) OnDisk(op *DiskOp) {
+	if op.Key&(1<<16) != 0 && op.Effect {
+		id := uint16(op.Key)
+		switch op.Kind {
+		case 'S':
+			if _, ok := f.Owned[id]; !ok {
+				f.Owned[id] = op.Step
+			}
+		case 'D':
+			delete(f.Owned, id)
+		}
+	}
 	switch op.Kind {
 	case 'S':
 		if !op.Effect {
@@ -252,6 +276,8 @@ func drawFlowOpts(t *Tape, thorough bool) FlowOpts {
 	o.ReqMix = [rkKinds]int{3, 1, 2, 1, 1, 2, 2}
 	o.QuitMix = [4]int{4, 2, 1, 2}
 	o.FailFilter = 200
+	o.InQ = [3]int{1, 1, 1}
+	o.InSizeMix = [4]int{6, 1, 1, 1}
 	return o
 }
 
@@ -300,21 +326,92 @@ func payloadFor(t *Tape, marker string, bigPermille int, thorough bool) []byte {
 	return b
 }
 
+// Recv is one return of ReadSlices that carried a message (or a BigMessage).
+type Recv struct {
+	Idx        int
+	Step       int // return step
+	Gen        int
+	Conn       int // connection current at the return
+	Topic      string
+	Msg        []byte
+	Big        bool
+	BigSize    int
+	BigRead    bool
+	BigErr     error
+	NextInvoke int // step at which ReadSlices was invoked again (ownership taken); 0: not yet
+	Out        *OutMsg
+}
+
+// BackoffRec is one wait on a ReadBackoff channel.
+type BackoffRec struct {
+	Err    error
+	NilCh  bool
+	Wait   time.Duration
+	Sched  time.Duration // part of Wait the scheduler added by tick actions
+	Step   int
+	Online bool // the client was online when the error was returned
+}
+
 func (f *Flow) readerTask(s *Sim) {
+	w := f.W
 	zombieCalls := 0
+	var last *Recv
 	for {
 		s.Pause("before-ReadSlices")
+		if last != nil {
+			last.NextInvoke = w.Steps
+			last = nil
+		}
+		f.RSInvokes++
 		msg, topic, err := f.C.ReadSlices()
-		_ = msg
-		_ = topic
-		if err != nil {
-			f.ReaderErrs = append(f.ReaderErrs, err)
-			f.ReaderErrSteps = append(f.ReaderErrSteps, f.W.Steps)
-			f.W.Ev("reader", 0, "ReadSlices: %v", err)
-			if errors.Is(err, mqtt.ErrClosed) {
-				f.ReaderClosed = true
-				return
+		f.RSReturns++
+		f.LastRSReturn = w.Steps
+		if err == nil {
+			r := &Recv{Idx: len(f.Recvs), Step: w.Steps, Gen: w.Gen, Conn: -1, Topic: string(topic), Msg: append([]byte{}, msg...)}
+			if c := s.Cur(); c != nil {
+				r.Conn = c.id
 			}
+			r.Out = f.outByTopic(r.Topic)
+			f.Recvs = append(f.Recvs, r)
+			last = r
+			w.Ev("recv", r.Idx, "ReadSlices -> %q +%dB", trunc(r.Topic, 24), len(r.Msg))
+			for _, m := range f.Mon {
+				m.Recv(f, r)
+			}
+			continue
+		}
+		var big *mqtt.BigMessage
+		if errors.As(err, &big) {
+			r := &Recv{Idx: len(f.Recvs), Step: w.Steps, Gen: w.Gen, Conn: -1, Topic: big.Topic, Big: true, BigSize: big.Size}
+			if c := s.Cur(); c != nil {
+				r.Conn = c.id
+			}
+			if !s.dead && w.Tape.Flip("bigread", 600) {
+				s.Pause("before-ReadAll")
+				r.BigRead = true
+				r.Msg, r.BigErr = big.ReadAll()
+			}
+			r.Out = f.outByTopic(r.Topic)
+			f.Recvs = append(f.Recvs, r)
+			last = r
+			w.Ev("recv", r.Idx, "ReadSlices -> BigMessage %q size=%d read=%v err=%v", trunc(r.Topic, 24), r.BigSize, r.BigRead, r.BigErr)
+			for _, m := range f.Mon {
+				m.Recv(f, r)
+			}
+			if s.dead {
+				zombieCalls++
+				if zombieCalls > 20 {
+					return
+				}
+			}
+			continue
+		}
+		f.ReaderErrs = append(f.ReaderErrs, err)
+		f.ReaderErrSteps = append(f.ReaderErrSteps, f.W.Steps)
+		f.W.Ev("reader", 0, "ReadSlices: %v", err)
+		if errors.Is(err, mqtt.ErrClosed) {
+			f.ReaderClosed = true
+			return
 		}
 		if s.dead {
 			zombieCalls++
@@ -323,18 +420,42 @@ func (f *Flow) readerTask(s *Sim) {
 			}
 			continue
 		}
-		if err != nil {
-			var big *mqtt.BigMessage
-			if errors.As(err, &big) {
-				continue
+		if f.O.Backoff {
+			on, _, known := f.C.VerifSignals()
+			ch := f.C.ReadBackoff(err)
+			rec := BackoffRec{Err: err, NilCh: ch == nil, Step: w.Steps, Online: on && known}
+			if ch != nil {
+				t0, k0 := s.Now(), s.TickTime
+				<-ch
+				// time the scheduler let pass on its own account (tick
+				// actions while goroutines were runnable) is scheduling
+				// latency, not backoff
+				rec.Wait = s.Now() - t0
+				rec.Sched = s.TickTime - k0
 			}
-			if f.O.Backoff {
-				if ch := f.C.ReadBackoff(err); ch != nil {
-					<-ch
-				}
+			if !s.dead {
+				f.Backoffs = append(f.Backoffs, rec)
 			}
 		}
 	}
+}
+
+func (f *Flow) outByTopic(topic string) *OutMsg {
+	if sess := f.W.Broker.Sessions[f.O.ClientID]; sess != nil {
+		for i := len(sess.Out) - 1; i >= 0; i-- {
+			if sess.Out[i].Topic == topic {
+				return sess.Out[i]
+			}
+		}
+	}
+	return nil
+}
+
+func trunc(s string, n int) string {
+	if len(s) > n {
+		return s[:n] + "…"
+	}
+	return s
 }
 
 func (f *Flow) pubTask(s *Sim, name string, n int) {
@@ -478,7 +599,7 @@ func (f *Flow) stepHook() {
 	for _, m := range f.Mon {
 		m.Step(f)
 	}
-	if f.pubTasksLive == 0 && f.reqTasksLive == 0 && f.QStartStep == 0 && f.quiesceReady() {
+	if f.pubTasksLive == 0 && f.reqTasksLive == 0 && f.InSent >= f.O.Inbound && f.QStartStep == 0 && f.quiesceReady() {
 		f.QStartStep = w.Steps
 		f.QStartTime = s.Now()
 		f.FaultSteps = w.Steps
@@ -513,7 +634,58 @@ func (f *Flow) env() []Action {
 		}})
 	}
 	acts = append(acts, f.quitActions()...)
+	if c := s.Cur(); f.InSent < f.O.Inbound && f.C != nil && c != nil && w.Broker.SessionOf(c) != nil {
+		acts = append(acts, Action{Name: "broker-publish", Weight: 6, Run: f.brokerPublish})
+	}
 	return acts
+}
+
+// brokerPublish makes the broker send the next application message.
+func (f *Flow) brokerPublish() {
+	w := f.W
+	n := f.InSent
+	f.InSent++
+	qos := byte(w.Tape.Pick("inq", f.O.InQ[:]))
+	topic := fmt.Sprintf("in/%d", n)
+	if w.Tape.Flip("intopiclong", f.O.LongTopic) {
+		max := f.O.ReadBuf - 12
+		if max > 65535 {
+			max = 65535
+		}
+		if max > 300 && !w.Tape.Flip("intopichuge", 100) {
+			max = 300
+		}
+		tl := 1 + w.Tape.Draw("intopiclen", max)
+		for len(topic) < tl {
+			topic += "/x"
+		}
+	}
+	size := w.Tape.Draw("insize", 24)
+	rb := f.O.ReadBuf
+	switch w.Tape.Pick("insizeclass", f.O.InSizeMix[:]) {
+	case 1: // around the read buffer
+		size = rb - 8 - len(topic) + w.Tape.Draw("inaround", 17)
+	case 2: // several buffers
+		size = rb + w.Tape.Draw("inmulti", 2*rb+1)
+	case 3:
+		size = 0
+	}
+	if size < 0 {
+		size = 0
+	}
+	if size > 300*1024 {
+		size = 300 * 1024
+	}
+	payload := make([]byte, size)
+	for i := range payload {
+		payload[i] = byte('A' + (i+n)%53)
+	}
+	copy(payload, topic)
+	m := w.Broker.Publish(f.O.ClientID, qos, w.Tape.Flip("inretain", 100), topic, payload)
+	w.Ev("bpub", n, "broker publishes q%d %q +%dB id=%#04x", qos, trunc(topic, 24), size, m.ID)
+	if c := f.S.Cur(); c != nil && c.Alive() {
+		w.Broker.Flush(c)
+	}
 }
 
 // AdoptedGen is whether the incarnation came from AdoptSession.
@@ -521,6 +693,23 @@ func (f *Flow) AdoptedGen(gen int) bool { return f.adopted[gen] }
 
 // goalReached: every accepted publish is done in every respect.
 func (f *Flow) goalReached() bool {
+	if f.InSent < f.O.Inbound {
+		return false
+	}
+	if f.StrictInbound && len(f.Recvs) < f.InSent && len(f.ReaderErrs) == 0 {
+		return false
+	}
+	if sess := f.W.Broker.Sessions[f.O.ClientID]; sess != nil && f.O.Inbound > 0 {
+		for _, m := range sess.Out {
+			if m.Stage != 3 {
+				return false
+			}
+		}
+		// everything the broker sent has been read
+		if c := f.S.Cur(); c != nil && c.Alive() && c.avail() > 0 {
+			return false
+		}
+	}
 	for _, r := range f.Reqs {
 		if r.Invoke != 0 && r.Ret == 0 {
 			return false
